@@ -9,8 +9,8 @@
 From Coq Require Import List NArith Bool String.
 From Verif Require Import Lib.Utf8 Jsonx.Lex Jsonx.Tok Jsonx.GoStr Jsonx.Num Jsonx.NumProofs
   Jsonx.Parse Jsonx.Json Jsonx.Encode Jsonx.ParseProofs Jsonx.Term Jsonx.JsonProofs Jsonx.StrAgree
-  Jsonx.Roundtrip Jsonx.PlainJson
-  Jsonx.GenTypes Gen.JsonxConsts Jsonx.ConstsGen.
+  Jsonx.Roundtrip Jsonx.PlainJson Jsonx.Grammar
+  Jsonx.GenTypes Gen.JsonxConsts Gen.JsonxOwn Jsonx.Own Jsonx.ConstsGen.
 Import ListNotations.
 Local Open Scope N_scope.
 
@@ -196,6 +196,120 @@ Theorem C09_plain_json_accepted :
 Proof. exact (fun F pf ff => plain_json_accepted pf ff). Qed.
 Print Assumptions C09_plain_json_accepted.
 
+(** The JSONx extensions, with every surface choice, at the level of the
+    tokens the parser reads ([doc], [toks] in Jsonx/Grammar.v): bare or quoted
+    keys, a trailing comma or none, "+" or "-" before an integer or float
+    literal in Go syntax, any string literal Go can unquote (raw or escaped),
+    dotted identifier lists, any nesting.  The parser reads the tokens of
+    every well-formed document as the intended tree, records no error and
+    stops right after the document ... *)
+Theorem C09_documented_syntax_parses :
+  forall (F : Type) (pf : list N -> option F) (fin : list ecode) d,
+  okb pf d = true -> forall rest, nodot d rest ->
+  PV pf (st_at fin (map (mkp []) (toks d) ++ rest)) (ast_of pf d, st_at fin rest).
+Proof. exact (fun F pf fin => grammar_complete pf fin). Qed.
+Print Assumptions C09_documented_syntax_parses.
+
+(** ... and ToJSON accepts it, without error, and emits JSON that the
+    reference parser reads as the DOCUMENTED value ([doc_value]: a key is its
+    name whether bare or quoted, a trailing comma is nothing, "+" is dropped
+    and "-" kept, an integer is the value of the Go-style literal in decimal,
+    a float what json.Marshal writes for the float64 the literal reads as, a
+    string its Go literal unquoted, a dotted list the array of its names). *)
+Theorem C09_documented_syntax_accepted_with_its_value :
+  forall (F : Type) (pf : list N -> option F) (ff : F -> list N),
+  (forall f, is_json_number (ff f) = true) -> (forall f r, ff f <> 45 :: r) ->
+  forall d, okb pf d = true -> ints_okb d = true ->
+  exists out, to_json_stream pf ff (mkS (map (mkp []) (toks d)) []) = Some (Some out, []) /\
+              json_parse out = Some (doc_value pf ff d).
+Proof. exact (fun F pf ff H1 H2 => grammar_to_json pf ff H1 H2). Qed.
+Print Assumptions C09_documented_syntax_accepted_with_its_value.
+
+(** What is NOT proved: the same at the level of the TEXT, for every choice of
+    white space, comments and line ends between the tokens.  [spell] writes
+    the tokens of a document with a gap before each token and one at the end;
+    a gap is white space and comments, and may contain a line end only where
+    the separator inserter does not make a separator of it (after an opening
+    bracket, a comma, a colon, a dot or a sign).  The proved parts are the
+    token level above, the lexer theorems of C08 (tokens spell the input,
+    comments are removed) and - for one particular spelling, the printer's -
+    C07_roundtrip; for plain JSON texts, C09_plain_json_same.  The render
+    stream of the check searches this statement for counterexamples on every
+    run. *)
+Definition gap_runes_ok (nl_allowed : bool) (g : list N) : Prop :=
+  exists raw, jsonx_raw_tokens g = Ok raw /\
+    Forall (fun te => snd te = [] /\
+              (tty (fst te) = TComment \/ (nl_allowed = true /\ tty (fst te) = TEndl))) raw /\
+    (nl_allowed = false -> Forall (fun te => ~ In 10 (tlit (fst te))) raw).
+
+Definition opens_gap (t : tl) : bool :=
+  ttype_eqb (fst t) TOperator &&
+  existsb (list_N_eqb (snd t)) [[123]; [91]; [44]; [58]; [46]; [43]; [45]].
+
+Fixpoint spell (prev : option tl) (ts : list tl) (gaps : list (list N)) : list N :=
+  match ts, gaps with
+  | t :: ts', g :: gaps' => g ++ snd t ++ spell (Some t) ts' gaps'
+  | _, g :: _ => g
+  | _, [] => []
+  end.
+
+Fixpoint gaps_ok (prev : option tl) (ts : list tl) (gaps : list (list N)) : Prop :=
+  match ts, gaps with
+  | t :: ts', g :: gaps' =>
+      gap_runes_ok (match prev with Some p => opens_gap p | None => true end) g /\ gaps_ok (Some t) ts' gaps'
+  | [], [g] => gap_runes_ok true g
+  | _, _ => False
+  end.
+
+Definition stmt_documented_text_same : Prop :=
+  forall (F : Type) (pf : list N -> option F) (ff : F -> list N),
+  (forall f, is_json_number (ff f) = true) -> (forall f r, ff f <> 45 :: r) ->
+  forall d gaps, okb pf d = true -> ints_okb d = true ->
+  (* every token literal is what the lexer makes of its own spelling *)
+  Forall (fun t : tl => jsonx_raw_tokens (snd t) = Ok [(mkTok (match fst t with TKeyword => TIdent | ty => ty end) (snd t), [])])
+         (toks d) ->
+  gaps_ok None (toks d) gaps ->
+  exists out, to_json pf ff (spell None (toks d) gaps) = Ok (Some out, []) /\
+              json_parse out = Some (doc_value pf ff d).
+
+(** Ownership: the bytes ToJSON returns are the caller's.  For the allocation
+    policy read from the source on this run (gen/jsonx_own.go: every []byte
+    result is a buffer made in that call, there is no package-level buffer
+    or pool), after ANY history of calls and of caller writes into results
+    it was handed, what the caller reads from each result is what value
+    semantics says ([spec]: independent values, each changed only by its
+    owner); and the result of a call is the function of that call's input
+    alone, until the caller overwrites that very result. *)
+Theorem C09_results_owned_by_caller : forall (F : list N -> list N) h k,
+  read (run F (policy_of gen_result_origins gen_pkg_buffers) h) k = nth_error (spec F h) k.
+Proof. exact gen_results_owned. Qed.
+Print Assumptions C09_results_owned_by_caller.
+
+Theorem C09_result_function_of_its_input_only : forall (F : list N -> list N) h1 i h2,
+  forallb (fun e => negb (writes_to (ncalls h1) e)) h2 = true ->
+  read (run F (policy_of gen_result_origins gen_pkg_buffers) (h1 ++ ECall i :: h2)) (ncalls h1) = Some (F i).
+Proof. exact gen_result_stable. Qed.
+Print Assumptions C09_result_function_of_its_input_only.
+
+(** ... whereas a buffer the implementation keeps (a package-level buffer, a
+    sync.Pool) is overwritten by the next call while the first caller still
+    holds it. *)
+Theorem C09_pooled_buffer_refuted : forall (F : list N -> list N) a b, F a <> F b ->
+  read (run F Pooled [ECall a; ECall b]) 0 = Some (F b) /\
+  nth_error (spec F [ECall a; ECall b]) 0 = Some (F a) /\
+  read (run F Pooled [ECall a; ECall b]) 0 <> nth_error (spec F [ECall a; ECall b]) 0.
+Proof. exact pooled_refuted. Qed.
+Print Assumptions C09_pooled_buffer_refuted.
+
+Example C09_ownership_example :
+  (* three calls; the caller scribbles over the first result after the second call *)
+  let h := [ECall [1]; ECall [2]; EWrite 0 [9; 9]; ECall [3]]%N in
+  map (read (run (fun i => i ++ i) Fresh h)) [0; 1; 2]%nat
+  = [Some [9; 9]; Some [2; 2]; Some [3; 3]]%N /\
+  map (read (run (fun i => i ++ i) Pooled h)) [0; 1; 2]%nat
+  = [Some [3; 3]; Some [3; 3]; Some [3; 3]]%N.
+Proof. vm_compute. split; reflexivity. Qed.
+
 (** Non-vacuity. *)
 Definition ftab (lit : list N) : option (list N) :=
   if list_N_eqb lit [49; 46; 53] then Some [49; 46; 53] else None.      (* "1.5" *)
@@ -255,3 +369,20 @@ Proof. vm_compute. split; reflexivity. Qed.
 Example C09_trailing_example :
   unmarshal ftab (fun t => t) [49; 32; 50] = Ok UMore.       (* "1 2" *)
 Proof. vm_compute. reflexivity. Qed.
+
+(** An object with the members a : -1 , k (quoted) : [ +0x1F , x.y , ] , b : null ,
+    and a trailing comma  -  bare and quoted keys,
+    signs, a hexadecimal literal, a dotted list, trailing commas. *)
+Definition ex_doc : doc :=
+  DObj [ (DKBare [97], DInt (Some [45]) [49]);
+         (DKQuoted [34; 107; 34], DList [DInt (Some [43]) [48; 120; 49; 70]; DIdents [120] [[121]]] true);
+         (DKBare [98], DNull) ] true.
+
+Example C09_documented_syntax_example :
+  okb ftab ex_doc = true /\ ints_okb ex_doc = true /\
+  doc_value ftab (fun t => t) ex_doc
+  = JObj [([97], JNum [45; 49]); ([107], JArr [JNum [51; 49]; JArr [JStr [120]; JStr [121]]]); ([98], JNull)] /\
+  to_json_stream ftab (fun t => t) (mkS (map (mkp []) (toks ex_doc)) [])
+  = Some (Some [123;34;97;34;58;45;49;44;34;107;34;58;91;51;49;44;91;34;120;34;44;34;121;34;93;93;44;34;98;34;58;110;117;108;108;125], []).
+Proof. vm_compute. repeat split. Qed.
+
